@@ -58,8 +58,19 @@ def r1_signs(ctx):
                    "" if ok else "%s: the %s is %s (expected the negation of the own %s bound%s)"
                    % (name, label, show(tree), which, "; it is the own %s bound" % other if inner in own[other] else ""),
                    ctx.where(f, t["line"]), sample={"function": name, "argument": show(tree), "own_%s" % which: sorted(show(x) for x in own[which])})
-        # child value negated exactly once
+        # child value negated exactly once: every read of child.value flows (through plain copies) into a Neg
         child = t["dest"]["l"]
+        copies = {}
+        neg_of = set()
+        for b in sorted(cfg.reach):
+            for s in f["blocks"][b]["stmts"]:
+                rv, d = s["rv"], s["dst"]
+                if d is None or d["p"]:
+                    continue
+                if rv["op"] == "use" and rv["a"][0].get("k") in ("copy", "move") and not rv["a"][0]["pl"]["p"]:
+                    copies.setdefault(rv["a"][0]["pl"]["l"], set()).add(d["l"])
+                if rv["op"] == "un" and rv["uop"] == "Neg" and rv["a"][0].get("k") in ("copy", "move") and not rv["a"][0]["pl"]["p"]:
+                    neg_of.add(rv["a"][0]["pl"]["l"])
         reads, negs = 0, 0
         for b in sorted(cfg.reach):
             for s in f["blocks"][b]["stmts"]:
@@ -67,15 +78,22 @@ def r1_signs(ctx):
                 for a in rv.get("a", []):
                     if a.get("k") in ("copy", "move") and a["pl"]["l"] == child and [e.get("name") for e in a["pl"]["p"] if isinstance(e, dict)] == ["value"]:
                         reads += 1
-                        # the temp that receives it must be used by a Neg
-                        d = s["dst"]
                         if rv["op"] == "un" and rv["uop"] == "Neg":
                             negs += 1
-                        elif d is not None and not d["p"]:
-                            for b2 in sorted(cfg.reach):
-                                for s2 in f["blocks"][b2]["stmts"]:
-                                    if s2["rv"]["op"] == "un" and s2["rv"]["uop"] == "Neg" and _operand_locals(s2["rv"]["a"][0]) == {d["l"]}:
-                                        negs += 1
+                            continue
+                        d = s["dst"]
+                        if d is not None and not d["p"]:
+                            seen, work = set(), [d["l"]]
+                            hit = False
+                            while work:
+                                x = work.pop()
+                                if x in seen:
+                                    continue
+                                seen.add(x)
+                                if x in neg_of:
+                                    hit = True
+                                work.extend(copies.get(x, ()))
+                            negs += 1 if hit else 0
         ok = reads >= 1 and reads == negs
         ctx.ob(rid, "%s|child-value-negated" % name, ok, "" if ok else "%s reads the child's value %d time(s) and negates it %d time(s)" % (name, reads, negs), ctx.where(f, t["line"]),
                sample={"function": name, "reads": reads, "negations": negs})
